@@ -182,3 +182,20 @@ package metrics
 //@   site call series.AddEntry #1:
 //@     assert [only-samples-inside-the-window-are-kept] timeRange.StartEpochSec <= arg1 && arg1 <= timeRange.EndEpochSec
 //@ end
+
+// C08 (every series stays reachable through its tags): a rotated segment's meta
+// entry records the tags-tree directory in use at rotation.  rotateTagsTree
+// switches the holder to a new directory and EMPTIES its in-memory trees, so the
+// trees collected since the last periodic flush must be written out (to the old
+// directory) BEFORE the holder is rotated.  Ghost ttFlushed: the holder was
+// flushed after the segment rotation on this path.
+//@ ghostdecl ttFlushed int
+//@ func (*MetricsSegment).CheckAndRotate
+//@   props C08
+//@   assumecalleerequires
+//@   ghostinit ghost(0, "ttFlushed") == 0
+//@   site call tt.flushTagsTree #1:
+//@     ghostset ghost(0, "ttFlushed") = 1
+//@   site call tt.rotateTagsTree #1:
+//@     assert [retiring-tags-trees-are-flushed-before-the-holder-is-rotated] ghost(0, "ttFlushed") == 1
+//@ end
